@@ -7,7 +7,7 @@ use paseto_core::encodings::Payload;
 use paseto_core::key::Key;
 use paseto_core::tokens::{SealedToken, UnsealedToken};
 use paseto_core::validation::NoValidation;
-use paseto_core::version::{Local, Public, Purpose, SealingVersion, UnsealingVersion};
+use paseto_core::version::{Local, Public, Purpose, SealingVersion};
 use proptest::prelude::*;
 use serde::{Deserialize, Serialize};
 use serde_json::{Value, json};
@@ -83,7 +83,7 @@ where
 }
 
 /// Parse "<header><b64 payload>[.<b64 footer>]" on back end T and unseal it.
-pub fn attempt<T: Backend, P: Purpose, M: Payload>(
+pub fn attempt<T: Backend, P: Aliases<V<T>>, M: Payload>(
     payload: &[u8],
     footer: &[u8],
     assertion: &[u8],
@@ -91,11 +91,13 @@ pub fn attempt<T: Backend, P: Purpose, M: Payload>(
     purpose: &str,
 ) -> Result<M, PasetoError>
 where
-    V<T>: UnsealingVersion<P>,
+    V<T>: SealingVersion<P>,
 {
     let s = model::assemble(&format!("{}.{purpose}.", T::VER.v()), payload, footer);
     let t: SealedToken<V<T>, P, M, Vec<u8>> = s.parse()?;
-    t.unseal(key, assertion, &NoValidation::dangerous_no_validation()).map(|u| u.claims)
+    // rotate through the generic unseal and the purpose-specific aliases
+    let which = (payload.len() + footer.len() + assertion.len()) as u8;
+    P::unseal_via(which, t, key, assertion, &NoValidation::dangerous_no_validation()).map(|u| u.claims)
 }
 
 pub struct KeyVariant<B: Backend, P: Purpose>
